@@ -30,6 +30,8 @@ public final class ChecksumServiceFactory {
             register("SUMI" + 8 * w, new Sum(w, true));
         }
         register("CRC32", new Sum(4, false));
+        register("SumU32Mx", new Sum(4, false));
+        register("sumu16lc", new Sum(2, false));
     }
 
     public static ChecksumServiceFactory getInstance() { return INSTANCE; }
